@@ -22,6 +22,7 @@ Not decided: the invariances numerically, GRE <= 1, the LRE/GRE link.
 """
 from .. import protocols
 from ..harness import arr, extobj, integer, scalar
+from .. import tq
 from ..interp import State
 from ..terms import T, V, vconst
 
@@ -72,13 +73,13 @@ def check(ctx):
         ref = ctx.call_func(I2, s2, f"ref.reconstruction_ref.{refn}", X, Y, *extra, tr, te, sc2, est2)
         ctx.compare("R-SPLITROLE", f"{fn} == reference (roles of train/test, source/target, scaler and estimator history)", N, r, ref, site)
         t = r.term
-        root = t.op == "norm" or (t.op == "comp" and t.args[2].op == "norm") or repr(t).startswith("norm(") or ("comp(" in repr(t)[:6] and "norm(" in repr(t)[:60])
+        root = t.op == "norm" or (t.op == "comp" and t.args[2].op == "norm")
         ctx.ob("R-NONNEG", f"{fn} returns row-wise norms", root, repr(t)[:80], site)
         # scaler history: exactly two fits (X_train, Y_train), each before its transforms
-        fits = [e for e in I.events if e["kind"] == "mutate-object" and e["method"] == "fit" and "scaler" in repr(e["target"].term)]
+        fits = [e for e in I.events if e["kind"] == "mutate-object" and e["method"] == "fit" and tq.has_sym(e["target"].term, "scaler")]
         ok = len(fits) == 2 and repr(fits[0]["args"][0].term) == "X[train_idx]" and repr(fits[1]["args"][0].term) == "Y[train_idx]"
         ctx.ob("R-SCALED", f"{fn}: the scaler is fitted on the training part of X, then refitted on the training part of Y", ok, f"{[repr(e['args'][0].term) for e in fits]}", site)
-        efits = [e for e in I.events if e["kind"] == "mutate-object" and e["method"] == "fit" and repr(e["target"].term).startswith(("estimator", "after(estimator"))]
+        efits = [e for e in I.events if e["kind"] == "mutate-object" and e["method"] == "fit" and tq.has_sym(e["target"].term, "estimator")]
         bad = [repr(a.term)[:80] for e in efits for a in e["args"] if _mentions_outside(a.term, "test_idx", ("argsort",))]
         ctx.ob("R-SPLITROLE", f"{fn}: the estimator is never fitted on test data", bool(efits) and not bad, f"{len(efits)} fit(s); arguments mentioning the test set: {bad}", site)
     # ---- global = rms of its own pointwise function, arguments forwarded by name -------------
